@@ -176,7 +176,10 @@ class LocRun:
                     def ttl_at(j):
                         d = ci["ops"][j].get("fact") or ci["ops"][j].get("rule") or {}
                         return isinstance(d, dict) and ("ttl" in d or (isinstance(d.get("rule"), dict) and "ttl" in d["rule"]))
-                    if any(ttl_at(j) and isinstance(oi[j], dict) and isinstance(ol[j], dict) and (oi[j].get("now"), oi[j].get("now2")) != (ol[j].get("now"), ol[j].get("now2")) for j in range(k + 1)):
+                    clocks_differ = lambda j: isinstance(oi[j], dict) and isinstance(ol[j], dict) and (oi[j].get("now"), oi[j].get("now2")) != (ol[j].get("now"), ol[j].get("now2"))
+                    # (a ttl inside a document that a rule action writes is resolved at the clock of the event that runs the action)
+                    action_ttl = any(ci["ops"][j]["op"] == "event" and clocks_differ(j) and '"ttl"' in json.dumps([o.get("rule") for o in ci["ops"][:j] if o["op"] == "addRule"]) for j in range(k + 1))
+                    if action_ttl or any(ttl_at(j) and clocks_differ(j) for j in range(k + 1)):
                         self.stats["cross_state_skipped_clock"] += 1
                         break
                     cls = self.classify(ci, k, op, a, a) or self.classify(cl, k, op, b, b)
@@ -271,7 +274,22 @@ def clock_ambiguous(case, impl_out):
     the model is given one `now` per op, the real code may read the clock several times."""
     outs = (impl_out or {}).get("outs") or []
     instants = set()
+    written_by_actions = []      # documents that rule actions write (Env.AddFact / Env.AddRule templates): resolved at the event's clock
     for k, op in enumerate(case["ops"]):
+        if op.get("op") == "addRule" and isinstance(op.get("rule"), dict):
+            acts = (op["rule"].get("actions") or []) + ([op["rule"]["action"]] if isinstance(op["rule"].get("action"), dict) else [])
+            for a in acts:
+                t = a.get("verif_tmpl") if isinstance(a, dict) else None
+                if isinstance(t, dict) and t.get("t") in ("addfact", "addrule") and isinstance(t.get("fact") or t.get("rule"), dict):
+                    written_by_actions.append(t.get("fact") or t.get("rule"))
+        if op.get("op") == "event" and written_by_actions and k < len(outs) and isinstance(outs[k], dict):
+            enow = outs[k].get("now")
+            for d in written_by_actions:
+                if "ttl" in d:
+                    if outs[k].get("now2", enow) != enow:
+                        return True
+                    if isinstance(d["ttl"], (int, float)) and enow is not None:
+                        instants.add(enow + int(d["ttl"]))
         doc = op.get("fact") or op.get("rule") or {}
         now = outs[k].get("now") if k < len(outs) and isinstance(outs[k], dict) else None
         if now is not None and any("ttl" in d for d in (doc, doc.get("rule") if isinstance(doc.get("rule"), dict) else {})) and outs[k].get("now2", now) != now:
